@@ -21,4 +21,7 @@ def gatherD {β} (l : List β) (idx : List Nat) (d : β) : List β := idx.map (f
 /-- `np.setdiff1d(arange(n), dims)`: the modes not listed, increasing. -/
 def complDims (n : Nat) (dims : List Nat) : List Nat := (List.range n).filter (fun k => !dims.contains k)
 
+/-- Subscript left after dropping the coordinates of the singleton modes of shape `s`. -/
+def dropSingletons (s i : List Nat) : List Nat := ((s.zip i).filter (fun p => p.1 > 1)).map (·.2)
+
 end Pyttb
